@@ -1209,6 +1209,10 @@ HXIbuildfilename(const char *ext_fname, const int acc_mode)
 
     fname_len = (int)strlen(fname);
 
+    /* the name itself has to fit (the cases below copy it without further checks) */
+    if (fname_len + 1 > MAX_PATH_LEN)
+        HGOTO_ERROR(DFE_NOSPACE, NULL);
+
     switch (acc_mode) {
         case DFACC_CREATE: {          /* Creating a new external element */
             if (*fname == DIR_SEPC) { /* Absolute Pathname */
